@@ -1249,11 +1249,45 @@ deep_copy_svalue (svalue_t * from, svalue_t * to)
     }
 }
 
+/* deep_copy_svalue() builds the copy bottom-up: a new array or mapping is only stored
+ * in its parent when it is complete, until then nothing but C locals refer to it. An
+ * error raised half way would lose everything built so far. The one error that can
+ * happen is the nesting limit (cyclic values run into it), so it is looked for before
+ * the first allocation, while there is nothing to lose. */
+static void check_copy_depth (svalue_t *, int);
+
+static int
+check_copy_depth_node (mapping_t * map, mapping_node_t * elt, void *extra)
+{
+  (void) map; /* unused */
+  check_copy_depth (&elt->values[1], *(int *) extra);
+  return 0;
+}
+
+static void
+check_copy_depth (svalue_t * sv, int level)
+{
+  int i;
+
+  if (sv->type != T_ARRAY && sv->type != T_CLASS && sv->type != T_MAPPING)
+    return;
+  if (++level > MAX_SAVE_SVALUE_DEPTH)
+    error
+      ("Mappings, arrays and/or classes nested too deep (%d) for copy()\n",
+       MAX_SAVE_SVALUE_DEPTH);
+  if (sv->type == T_MAPPING)
+    mapTraverse (sv->u.map, check_copy_depth_node, &level);
+  else
+    for (i = 0; i < sv->u.arr->size; i++)
+      check_copy_depth (&sv->u.arr->item[i], level);
+}
+
 void
 f_copy (void)
 {
   svalue_t ret;
 
+  check_copy_depth (sp, 0);
   depth = 0;
   deep_copy_svalue (sp, &ret);
   free_svalue (sp, "f_copy");
